@@ -45,6 +45,28 @@ func replayOther(sc, path, prop, kind, class string, raw json.RawMessage) int {
 			}
 		}()
 		resp, st, detail := pcall(w, rp.Request, 120*time.Second)
+		if rp.FreshSolo && st == callOK {
+			w2 := &worker{bin: pw.bin, env: env}
+			sr := *rp.Request
+			sr.Kind = "c18solo"
+			sresp, st2, _ := pcall(w2, &sr, 120*time.Second)
+			if w2.cmd != nil {
+				w2.in.Close()
+				w2.kill()
+			}
+			if st2 == callOK {
+				for ci := range resp.Digests {
+					for cj := range resp.Digests[ci] {
+						if ci < len(sresp.Digests) && cj < len(sresp.Digests[ci]) && resp.Digests[ci][cj] != sresp.Digests[ci][cj] {
+							fmt.Printf("VIOLATION property=%s replay=%s\n  reproduced: class=differs-from-fresh-solo client %d call %d returned something else in the concurrent run than alone in a fresh process\n", prop, path, ci, cj)
+							return 1
+						}
+					}
+				}
+			}
+			fmt.Printf("replay %s: not reproduced (concurrent run and fresh-process solo runs agree)\n", path)
+			return 0
+		}
 		if rp.Expected == "data-race" {
 			// The schedule replays exactly, but the race detector keeps a bounded,
 			// randomly evicted access history per memory word, so it can miss a race
